@@ -24,6 +24,13 @@ chk('C05', 'model_checking',
     'for the codecs. libz itself is outside.',
     'bounded symbolic execution of LLVM IR (own executor, z3) + native ASan/UBSan replay', 'DESIGN.md §3 C05')
 
+chk('C01', 'model_checking',
+    'Schema 2.x: symbolic execution of the real create_track / update / snapshot path (snapshot_to_row, convert::read/write, the five codecs, track_table, sqlite_modern_cpp) over the key/value sqlite3 model. '
+    'One group of snapshot fields is symbolic per run (numeric sentinel fields | cue and loop slots | strings, integers, key, time stamp, beat grid). Asserted: the read-back snapshot equals the statement\'s '
+    'normalisation of the input (8 slots, whole seconds, rating clamp, 0 / -1 sentinels) and is a fixed point of write+read; a rejected write is an exception.',
+    'Trusted: clang lowering, lsx, key/value sqlite3 model (C18 is the claim that rows are stored faithfully), identity zlib framing, the normalisation oracle in harness/h_track_v2.cpp, z3. '
+    'Schema 1.x is outside (its multi-table storage layer is not modelled); waveform content is only checked for the fixed point. Not replayed against a real SQLite.',
+    'bounded symbolic execution of LLVM IR (lsx, z3) over a key/value sqlite3 model', 'DESIGN.md §3 C01')
 chk('C02', 'model_checking',
     'Bounded symbolic execution: for symbolic logical values of each of the 11 blob kinds (all field values symbolic; entry counts and label lengths from a stated grid) '
     'the real encoder output is compared byte for byte with an independent reference encoder of the documented Engine layout, and the real decoder is run on the reference '
@@ -42,6 +49,19 @@ chk('C04', 'model_checking',
     'to_blob of the result reproduces the payload byte for byte (the one boolean byte may be normalised to 0/1).',
     'Trusted: clang lowering, lsx + runtime models, z3; identity zlib framing. Payloads longer than the bound are outside; the setter half is covered by C06 when claimed.',
     'bounded symbolic execution of LLVM IR (lsx, z3) + native replay', 'DESIGN.md §3 C04')
+chk('C06', 'model_checking',
+    'Schema 2.x, one inductive step per setter (25 setters incl. per-slot cue/loop setters at slots 0 and 7): from a track created from an arbitrary snapshot plus a second track, '
+    'run the real setter with a symbolic value, then the real getter and snapshot(); assert getter == normalised value == snapshot field, every other field of this track and the whole other track unchanged '
+    '(set_relative_path: derived file name and extension follow). Because the pre-state is arbitrary, any finite sequence of setters is covered by induction.',
+    'Trusted: as C01. Schema 1.x and set_waveform are outside. Not replayed against a real SQLite.',
+    'bounded symbolic execution of LLVM IR (lsx, z3) over a key/value sqlite3 model, one inductive step per setter', 'DESIGN.md §3 C06')
+chk('C15', 'model_checking',
+    'Executor monitors (out-of-bounds / null / freed access, UBSan checks and libstdc++ precondition assertions made explicit in the IR, branch on an uninitialised value, unreachable, terminate, step cap) over every public '
+    'schema-2.x operation (91) with slot indices -1..9, cue/loop lists of 0..12 entries, arbitrary entity ids, a database answering 0 or 1 rows (handles to removed tracks/crates) and blob columns holding arbitrary or '
+    'all-zero structs; plus the 1.x cue/loop encoders with 0..12 slots. Every path must end in a return or a std::exception.',
+    'Trusted: clang lowering with -fsanitize-trap and -D_GLIBCXX_ASSERTIONS instrumentation, lsx monitors, abstract sqlite3 model (over-approximates reachable states; chains well formed; one Information row), z3. '
+    'Schema 1.x glue, NaN/inf/huge doubles to casting setters and UB inside SQLite/libz are outside. Not replayed against a real SQLite.',
+    'bounded symbolic execution of LLVM IR (lsx, z3) with UB monitors over an abstract sqlite3 model', 'DESIGN.md §3 C15')
 chk('C13', 'model_checking',
     'Symbolic execution of the real detect_schema (plain and "music"-prefixed), detect_is_database2, load_database and v1::engine_storage(directory) over an abstract sqlite3 model: '
     'the stored (major, minor, patch) are three symbolic int32, so z3 decides the decision table for every triple, not a box; Information row counts, table_info rows (1.18.0 variant marker) '
@@ -88,7 +108,10 @@ for pid, why in (
     ('C12', 'a finite comparison of DDL emitted by create() with reference dumps modulo SQLite\'s own parser; no symbolic variable, needs the real SQLite to normalise both sides (DESIGN.md §4)'),
     ('C17', 'quantifies over structural mutations of a catalog only SQLite can produce, judged by ~9000 lines of std::set<std::string> expectation lists; symbolic catalogs through that code are beyond reach, enumerating concrete mutations would be sampling, not this family (DESIGN.md §4)')):
     na(pid, why)
-PENDING = ['C01', 'C02', 'C03', 'C04', 'C06', 'C07', 'C08', 'C09', 'C11', 'C13', 'C14', 'C15', 'C16', 'C18', 'C19', 'C20']
+for pid in ('C07', 'C08', 'C09'):
+    na(pid, 'needs a relational model of Playlist/PlaylistEntity (UPDATE..WHERE, six triggers, recursive views) validated differentially against the real SQLite before it may be trusted (gate G3, DESIGN.md §1/§4); not built in the time available, and no unvalidated model is shipped; the schema-1.x half (three redundant encodings, INSTEAD OF triggers) is beyond the SQL subset a bounded symbolic model can give meaning to')
+na('C11', 'judged by an independent reader of the stored SQLite file (integrity / foreign-key checks, verify(), triple crate encoding): facts about SQLite executing SQL; the sub-claims that reduce to other obligations are covered there (blob decodability: C03; derived file name/extension: C06) and the chain invariants share C09\'s missing relational model')
+PENDING = []
 
 def main():
     for p in PENDING:
